@@ -274,6 +274,54 @@ pub fn parse_unknown_name<S: Src>(s: &mut S) {
     crate::cover!(s, true, "reached");
 }
 
+/// concrete parameter VAL: the text is built from the Display template and the decimal digits of VAL
+/// (the symbolic three-digit form does not fit in memory: > 30 GB; concrete texts cost seconds)
+pub fn parse_concrete<S: Src, const FAM: u8, const VAL: usize>(s: &mut S) {
+    let name = name_bytes(FAM);
+    let mut buf = [0u8; 48];
+    let mut n = 0;
+    while n < name.len() {
+        buf[n] = name[n];
+        n += 1;
+    }
+    // decimal digits of VAL, most significant first
+    let mut digits = [0u8; 20];
+    let mut nd = 0;
+    let mut v = VAL;
+    loop {
+        digits[nd] = b'0' + (v % 10) as u8;
+        nd += 1;
+        v /= 10;
+        if v == 0 {
+            break;
+        }
+    }
+    while nd > 0 {
+        nd -= 1;
+        buf[n] = digits[nd];
+        n += 1;
+    }
+    let suf = suffix_str(FAM).as_bytes();
+    let mut q = 0;
+    while q < suf.len() {
+        buf[n] = suf[q];
+        n += 1;
+        q += 1;
+    }
+    let text = unsafe { core::str::from_utf8_unchecked(&buf[..n]) };
+    let parsed = ok_or_forget(text.parse::<Codes>());
+    let ok = match parsed {
+        Some(Codes::Zeta { k }) => FAM == ZETA && k == VAL,
+        Some(Codes::Pi { k }) => FAM == PI && k == VAL,
+        Some(Codes::Golomb { b }) => FAM == GOLOMB && b == VAL,
+        Some(Codes::ExpGolomb { k }) => FAM == EXP_GOLOMB && k == VAL,
+        Some(Codes::Rice { log2_b }) => FAM == RICE && log2_b == VAL,
+        _ => false,
+    };
+    assert!(ok, "printed form Name(k) does not parse back to the same variant and parameter");
+    crate::cover!(s, true, "reached");
+}
+
 crate::harnesses! {
     #[kani::unwind(53)]
     c16_ids_roundtrip (quick, "Codes::from_code_const / to_code_const", "all identifiers 0..=50 (concrete loop)") => ids_roundtrip;
@@ -1186,31 +1234,226 @@ crate::harnesses! {
     #[kani::stub(alloc::fmt::format, stub_format)]
     #[kani::stub(std::string::ToString::to_string, stub_to_string)]
     #[kani::stub(std::backtrace::Backtrace::capture, stub_backtrace_capture)]
-    #[kani::unwind(24)]
-    c16_parse3_zeta (thorough, "FromStr for Codes", "Zeta(k) with a symbolic three-digit k (100..=999)") => parse_digits::<_, {ZETA}, 3>;
+    #[kani::unwind(50)]
+    c16_parsek_zeta_0 (quick, "FromStr for Codes", "Zeta(0): concrete parameter, text built from the Display template") => parse_concrete::<_, {ZETA}, 0>;
     #[kani::stub(alloc::fmt::format, stub_format)]
     #[kani::stub(std::string::ToString::to_string, stub_to_string)]
     #[kani::stub(std::backtrace::Backtrace::capture, stub_backtrace_capture)]
-    #[kani::unwind(24)]
-    c16_parse3_pi (thorough, "FromStr for Codes", "Pi(k) with a symbolic three-digit k (100..=999)") => parse_digits::<_, {PI}, 3>;
+    #[kani::unwind(50)]
+    c16_parsek_zeta_7 (thorough, "FromStr for Codes", "Zeta(7): concrete parameter, text built from the Display template") => parse_concrete::<_, {ZETA}, 7>;
     #[kani::stub(alloc::fmt::format, stub_format)]
     #[kani::stub(std::string::ToString::to_string, stub_to_string)]
     #[kani::stub(std::backtrace::Backtrace::capture, stub_backtrace_capture)]
-    #[kani::unwind(24)]
-    c16_parse3_golomb (thorough, "FromStr for Codes", "Golomb(k) with a symbolic three-digit k (100..=999)") => parse_digits::<_, {GOLOMB}, 3>;
+    #[kani::unwind(50)]
+    c16_parsek_zeta_64 (quick, "FromStr for Codes", "Zeta(64): concrete parameter, text built from the Display template") => parse_concrete::<_, {ZETA}, 64>;
     #[kani::stub(alloc::fmt::format, stub_format)]
     #[kani::stub(std::string::ToString::to_string, stub_to_string)]
     #[kani::stub(std::backtrace::Backtrace::capture, stub_backtrace_capture)]
-    #[kani::unwind(24)]
-    c16_parse3_exp_golomb (thorough, "FromStr for Codes", "ExpGolomb(k) with a symbolic three-digit k (100..=999)") => parse_digits::<_, {EXP_GOLOMB}, 3>;
+    #[kani::unwind(50)]
+    c16_parsek_zeta_255 (thorough, "FromStr for Codes", "Zeta(255): concrete parameter, text built from the Display template") => parse_concrete::<_, {ZETA}, 255>;
     #[kani::stub(alloc::fmt::format, stub_format)]
     #[kani::stub(std::string::ToString::to_string, stub_to_string)]
     #[kani::stub(std::backtrace::Backtrace::capture, stub_backtrace_capture)]
-    #[kani::unwind(24)]
-    c16_parse3_rice (thorough, "FromStr for Codes", "Rice(k) with a symbolic three-digit k (100..=999)") => parse_digits::<_, {RICE}, 3>;
+    #[kani::unwind(50)]
+    c16_parsek_zeta_256 (quick, "FromStr for Codes", "Zeta(256): concrete parameter, text built from the Display template") => parse_concrete::<_, {ZETA}, 256>;
     #[kani::stub(alloc::fmt::format, stub_format)]
     #[kani::stub(std::string::ToString::to_string, stub_to_string)]
     #[kani::stub(std::backtrace::Backtrace::capture, stub_backtrace_capture)]
-    #[kani::unwind(30)]
-    c16_parse5_rice (thorough, "FromStr for Codes", "Rice(k) with a symbolic five-digit k") => parse_digits::<_, {RICE}, 5>;
+    #[kani::unwind(50)]
+    c16_parsek_zeta_300 (thorough, "FromStr for Codes", "Zeta(300): concrete parameter, text built from the Display template") => parse_concrete::<_, {ZETA}, 300>;
+    #[kani::stub(alloc::fmt::format, stub_format)]
+    #[kani::stub(std::string::ToString::to_string, stub_to_string)]
+    #[kani::stub(std::backtrace::Backtrace::capture, stub_backtrace_capture)]
+    #[kani::unwind(50)]
+    c16_parsek_zeta_65536 (thorough, "FromStr for Codes", "Zeta(65536): concrete parameter, text built from the Display template") => parse_concrete::<_, {ZETA}, 65536>;
+    #[kani::stub(alloc::fmt::format, stub_format)]
+    #[kani::stub(std::string::ToString::to_string, stub_to_string)]
+    #[kani::stub(std::backtrace::Backtrace::capture, stub_backtrace_capture)]
+    #[kani::unwind(50)]
+    c16_parsek_zeta_4294967296 (quick, "FromStr for Codes", "Zeta(4294967296): concrete parameter, text built from the Display template") => parse_concrete::<_, {ZETA}, 4294967296>;
+    #[kani::stub(alloc::fmt::format, stub_format)]
+    #[kani::stub(std::string::ToString::to_string, stub_to_string)]
+    #[kani::stub(std::backtrace::Backtrace::capture, stub_backtrace_capture)]
+    #[kani::unwind(50)]
+    c16_parsek_zeta_18446744073709551615 (thorough, "FromStr for Codes", "Zeta(18446744073709551615): concrete parameter, text built from the Display template") => parse_concrete::<_, {ZETA}, 18446744073709551615>;
+    #[kani::stub(alloc::fmt::format, stub_format)]
+    #[kani::stub(std::string::ToString::to_string, stub_to_string)]
+    #[kani::stub(std::backtrace::Backtrace::capture, stub_backtrace_capture)]
+    #[kani::unwind(50)]
+    c16_parsek_pi_0 (quick, "FromStr for Codes", "Pi(0): concrete parameter, text built from the Display template") => parse_concrete::<_, {PI}, 0>;
+    #[kani::stub(alloc::fmt::format, stub_format)]
+    #[kani::stub(std::string::ToString::to_string, stub_to_string)]
+    #[kani::stub(std::backtrace::Backtrace::capture, stub_backtrace_capture)]
+    #[kani::unwind(50)]
+    c16_parsek_pi_7 (thorough, "FromStr for Codes", "Pi(7): concrete parameter, text built from the Display template") => parse_concrete::<_, {PI}, 7>;
+    #[kani::stub(alloc::fmt::format, stub_format)]
+    #[kani::stub(std::string::ToString::to_string, stub_to_string)]
+    #[kani::stub(std::backtrace::Backtrace::capture, stub_backtrace_capture)]
+    #[kani::unwind(50)]
+    c16_parsek_pi_64 (quick, "FromStr for Codes", "Pi(64): concrete parameter, text built from the Display template") => parse_concrete::<_, {PI}, 64>;
+    #[kani::stub(alloc::fmt::format, stub_format)]
+    #[kani::stub(std::string::ToString::to_string, stub_to_string)]
+    #[kani::stub(std::backtrace::Backtrace::capture, stub_backtrace_capture)]
+    #[kani::unwind(50)]
+    c16_parsek_pi_255 (thorough, "FromStr for Codes", "Pi(255): concrete parameter, text built from the Display template") => parse_concrete::<_, {PI}, 255>;
+    #[kani::stub(alloc::fmt::format, stub_format)]
+    #[kani::stub(std::string::ToString::to_string, stub_to_string)]
+    #[kani::stub(std::backtrace::Backtrace::capture, stub_backtrace_capture)]
+    #[kani::unwind(50)]
+    c16_parsek_pi_256 (quick, "FromStr for Codes", "Pi(256): concrete parameter, text built from the Display template") => parse_concrete::<_, {PI}, 256>;
+    #[kani::stub(alloc::fmt::format, stub_format)]
+    #[kani::stub(std::string::ToString::to_string, stub_to_string)]
+    #[kani::stub(std::backtrace::Backtrace::capture, stub_backtrace_capture)]
+    #[kani::unwind(50)]
+    c16_parsek_pi_300 (thorough, "FromStr for Codes", "Pi(300): concrete parameter, text built from the Display template") => parse_concrete::<_, {PI}, 300>;
+    #[kani::stub(alloc::fmt::format, stub_format)]
+    #[kani::stub(std::string::ToString::to_string, stub_to_string)]
+    #[kani::stub(std::backtrace::Backtrace::capture, stub_backtrace_capture)]
+    #[kani::unwind(50)]
+    c16_parsek_pi_65536 (thorough, "FromStr for Codes", "Pi(65536): concrete parameter, text built from the Display template") => parse_concrete::<_, {PI}, 65536>;
+    #[kani::stub(alloc::fmt::format, stub_format)]
+    #[kani::stub(std::string::ToString::to_string, stub_to_string)]
+    #[kani::stub(std::backtrace::Backtrace::capture, stub_backtrace_capture)]
+    #[kani::unwind(50)]
+    c16_parsek_pi_4294967296 (quick, "FromStr for Codes", "Pi(4294967296): concrete parameter, text built from the Display template") => parse_concrete::<_, {PI}, 4294967296>;
+    #[kani::stub(alloc::fmt::format, stub_format)]
+    #[kani::stub(std::string::ToString::to_string, stub_to_string)]
+    #[kani::stub(std::backtrace::Backtrace::capture, stub_backtrace_capture)]
+    #[kani::unwind(50)]
+    c16_parsek_pi_18446744073709551615 (thorough, "FromStr for Codes", "Pi(18446744073709551615): concrete parameter, text built from the Display template") => parse_concrete::<_, {PI}, 18446744073709551615>;
+    #[kani::stub(alloc::fmt::format, stub_format)]
+    #[kani::stub(std::string::ToString::to_string, stub_to_string)]
+    #[kani::stub(std::backtrace::Backtrace::capture, stub_backtrace_capture)]
+    #[kani::unwind(50)]
+    c16_parsek_golomb_0 (quick, "FromStr for Codes", "Golomb(0): concrete parameter, text built from the Display template") => parse_concrete::<_, {GOLOMB}, 0>;
+    #[kani::stub(alloc::fmt::format, stub_format)]
+    #[kani::stub(std::string::ToString::to_string, stub_to_string)]
+    #[kani::stub(std::backtrace::Backtrace::capture, stub_backtrace_capture)]
+    #[kani::unwind(50)]
+    c16_parsek_golomb_7 (thorough, "FromStr for Codes", "Golomb(7): concrete parameter, text built from the Display template") => parse_concrete::<_, {GOLOMB}, 7>;
+    #[kani::stub(alloc::fmt::format, stub_format)]
+    #[kani::stub(std::string::ToString::to_string, stub_to_string)]
+    #[kani::stub(std::backtrace::Backtrace::capture, stub_backtrace_capture)]
+    #[kani::unwind(50)]
+    c16_parsek_golomb_64 (quick, "FromStr for Codes", "Golomb(64): concrete parameter, text built from the Display template") => parse_concrete::<_, {GOLOMB}, 64>;
+    #[kani::stub(alloc::fmt::format, stub_format)]
+    #[kani::stub(std::string::ToString::to_string, stub_to_string)]
+    #[kani::stub(std::backtrace::Backtrace::capture, stub_backtrace_capture)]
+    #[kani::unwind(50)]
+    c16_parsek_golomb_255 (thorough, "FromStr for Codes", "Golomb(255): concrete parameter, text built from the Display template") => parse_concrete::<_, {GOLOMB}, 255>;
+    #[kani::stub(alloc::fmt::format, stub_format)]
+    #[kani::stub(std::string::ToString::to_string, stub_to_string)]
+    #[kani::stub(std::backtrace::Backtrace::capture, stub_backtrace_capture)]
+    #[kani::unwind(50)]
+    c16_parsek_golomb_256 (quick, "FromStr for Codes", "Golomb(256): concrete parameter, text built from the Display template") => parse_concrete::<_, {GOLOMB}, 256>;
+    #[kani::stub(alloc::fmt::format, stub_format)]
+    #[kani::stub(std::string::ToString::to_string, stub_to_string)]
+    #[kani::stub(std::backtrace::Backtrace::capture, stub_backtrace_capture)]
+    #[kani::unwind(50)]
+    c16_parsek_golomb_300 (thorough, "FromStr for Codes", "Golomb(300): concrete parameter, text built from the Display template") => parse_concrete::<_, {GOLOMB}, 300>;
+    #[kani::stub(alloc::fmt::format, stub_format)]
+    #[kani::stub(std::string::ToString::to_string, stub_to_string)]
+    #[kani::stub(std::backtrace::Backtrace::capture, stub_backtrace_capture)]
+    #[kani::unwind(50)]
+    c16_parsek_golomb_65536 (thorough, "FromStr for Codes", "Golomb(65536): concrete parameter, text built from the Display template") => parse_concrete::<_, {GOLOMB}, 65536>;
+    #[kani::stub(alloc::fmt::format, stub_format)]
+    #[kani::stub(std::string::ToString::to_string, stub_to_string)]
+    #[kani::stub(std::backtrace::Backtrace::capture, stub_backtrace_capture)]
+    #[kani::unwind(50)]
+    c16_parsek_golomb_4294967296 (quick, "FromStr for Codes", "Golomb(4294967296): concrete parameter, text built from the Display template") => parse_concrete::<_, {GOLOMB}, 4294967296>;
+    #[kani::stub(alloc::fmt::format, stub_format)]
+    #[kani::stub(std::string::ToString::to_string, stub_to_string)]
+    #[kani::stub(std::backtrace::Backtrace::capture, stub_backtrace_capture)]
+    #[kani::unwind(50)]
+    c16_parsek_golomb_18446744073709551615 (thorough, "FromStr for Codes", "Golomb(18446744073709551615): concrete parameter, text built from the Display template") => parse_concrete::<_, {GOLOMB}, 18446744073709551615>;
+    #[kani::stub(alloc::fmt::format, stub_format)]
+    #[kani::stub(std::string::ToString::to_string, stub_to_string)]
+    #[kani::stub(std::backtrace::Backtrace::capture, stub_backtrace_capture)]
+    #[kani::unwind(50)]
+    c16_parsek_exp_golomb_0 (quick, "FromStr for Codes", "ExpGolomb(0): concrete parameter, text built from the Display template") => parse_concrete::<_, {EXP_GOLOMB}, 0>;
+    #[kani::stub(alloc::fmt::format, stub_format)]
+    #[kani::stub(std::string::ToString::to_string, stub_to_string)]
+    #[kani::stub(std::backtrace::Backtrace::capture, stub_backtrace_capture)]
+    #[kani::unwind(50)]
+    c16_parsek_exp_golomb_7 (thorough, "FromStr for Codes", "ExpGolomb(7): concrete parameter, text built from the Display template") => parse_concrete::<_, {EXP_GOLOMB}, 7>;
+    #[kani::stub(alloc::fmt::format, stub_format)]
+    #[kani::stub(std::string::ToString::to_string, stub_to_string)]
+    #[kani::stub(std::backtrace::Backtrace::capture, stub_backtrace_capture)]
+    #[kani::unwind(50)]
+    c16_parsek_exp_golomb_64 (quick, "FromStr for Codes", "ExpGolomb(64): concrete parameter, text built from the Display template") => parse_concrete::<_, {EXP_GOLOMB}, 64>;
+    #[kani::stub(alloc::fmt::format, stub_format)]
+    #[kani::stub(std::string::ToString::to_string, stub_to_string)]
+    #[kani::stub(std::backtrace::Backtrace::capture, stub_backtrace_capture)]
+    #[kani::unwind(50)]
+    c16_parsek_exp_golomb_255 (thorough, "FromStr for Codes", "ExpGolomb(255): concrete parameter, text built from the Display template") => parse_concrete::<_, {EXP_GOLOMB}, 255>;
+    #[kani::stub(alloc::fmt::format, stub_format)]
+    #[kani::stub(std::string::ToString::to_string, stub_to_string)]
+    #[kani::stub(std::backtrace::Backtrace::capture, stub_backtrace_capture)]
+    #[kani::unwind(50)]
+    c16_parsek_exp_golomb_256 (quick, "FromStr for Codes", "ExpGolomb(256): concrete parameter, text built from the Display template") => parse_concrete::<_, {EXP_GOLOMB}, 256>;
+    #[kani::stub(alloc::fmt::format, stub_format)]
+    #[kani::stub(std::string::ToString::to_string, stub_to_string)]
+    #[kani::stub(std::backtrace::Backtrace::capture, stub_backtrace_capture)]
+    #[kani::unwind(50)]
+    c16_parsek_exp_golomb_300 (thorough, "FromStr for Codes", "ExpGolomb(300): concrete parameter, text built from the Display template") => parse_concrete::<_, {EXP_GOLOMB}, 300>;
+    #[kani::stub(alloc::fmt::format, stub_format)]
+    #[kani::stub(std::string::ToString::to_string, stub_to_string)]
+    #[kani::stub(std::backtrace::Backtrace::capture, stub_backtrace_capture)]
+    #[kani::unwind(50)]
+    c16_parsek_exp_golomb_65536 (thorough, "FromStr for Codes", "ExpGolomb(65536): concrete parameter, text built from the Display template") => parse_concrete::<_, {EXP_GOLOMB}, 65536>;
+    #[kani::stub(alloc::fmt::format, stub_format)]
+    #[kani::stub(std::string::ToString::to_string, stub_to_string)]
+    #[kani::stub(std::backtrace::Backtrace::capture, stub_backtrace_capture)]
+    #[kani::unwind(50)]
+    c16_parsek_exp_golomb_4294967296 (quick, "FromStr for Codes", "ExpGolomb(4294967296): concrete parameter, text built from the Display template") => parse_concrete::<_, {EXP_GOLOMB}, 4294967296>;
+    #[kani::stub(alloc::fmt::format, stub_format)]
+    #[kani::stub(std::string::ToString::to_string, stub_to_string)]
+    #[kani::stub(std::backtrace::Backtrace::capture, stub_backtrace_capture)]
+    #[kani::unwind(50)]
+    c16_parsek_exp_golomb_18446744073709551615 (thorough, "FromStr for Codes", "ExpGolomb(18446744073709551615): concrete parameter, text built from the Display template") => parse_concrete::<_, {EXP_GOLOMB}, 18446744073709551615>;
+    #[kani::stub(alloc::fmt::format, stub_format)]
+    #[kani::stub(std::string::ToString::to_string, stub_to_string)]
+    #[kani::stub(std::backtrace::Backtrace::capture, stub_backtrace_capture)]
+    #[kani::unwind(50)]
+    c16_parsek_rice_0 (quick, "FromStr for Codes", "Rice(0): concrete parameter, text built from the Display template") => parse_concrete::<_, {RICE}, 0>;
+    #[kani::stub(alloc::fmt::format, stub_format)]
+    #[kani::stub(std::string::ToString::to_string, stub_to_string)]
+    #[kani::stub(std::backtrace::Backtrace::capture, stub_backtrace_capture)]
+    #[kani::unwind(50)]
+    c16_parsek_rice_7 (quick, "FromStr for Codes", "Rice(7): concrete parameter, text built from the Display template") => parse_concrete::<_, {RICE}, 7>;
+    #[kani::stub(alloc::fmt::format, stub_format)]
+    #[kani::stub(std::string::ToString::to_string, stub_to_string)]
+    #[kani::stub(std::backtrace::Backtrace::capture, stub_backtrace_capture)]
+    #[kani::unwind(50)]
+    c16_parsek_rice_64 (quick, "FromStr for Codes", "Rice(64): concrete parameter, text built from the Display template") => parse_concrete::<_, {RICE}, 64>;
+    #[kani::stub(alloc::fmt::format, stub_format)]
+    #[kani::stub(std::string::ToString::to_string, stub_to_string)]
+    #[kani::stub(std::backtrace::Backtrace::capture, stub_backtrace_capture)]
+    #[kani::unwind(50)]
+    c16_parsek_rice_255 (quick, "FromStr for Codes", "Rice(255): concrete parameter, text built from the Display template") => parse_concrete::<_, {RICE}, 255>;
+    #[kani::stub(alloc::fmt::format, stub_format)]
+    #[kani::stub(std::string::ToString::to_string, stub_to_string)]
+    #[kani::stub(std::backtrace::Backtrace::capture, stub_backtrace_capture)]
+    #[kani::unwind(50)]
+    c16_parsek_rice_256 (quick, "FromStr for Codes", "Rice(256): concrete parameter, text built from the Display template") => parse_concrete::<_, {RICE}, 256>;
+    #[kani::stub(alloc::fmt::format, stub_format)]
+    #[kani::stub(std::string::ToString::to_string, stub_to_string)]
+    #[kani::stub(std::backtrace::Backtrace::capture, stub_backtrace_capture)]
+    #[kani::unwind(50)]
+    c16_parsek_rice_300 (quick, "FromStr for Codes", "Rice(300): concrete parameter, text built from the Display template") => parse_concrete::<_, {RICE}, 300>;
+    #[kani::stub(alloc::fmt::format, stub_format)]
+    #[kani::stub(std::string::ToString::to_string, stub_to_string)]
+    #[kani::stub(std::backtrace::Backtrace::capture, stub_backtrace_capture)]
+    #[kani::unwind(50)]
+    c16_parsek_rice_65536 (quick, "FromStr for Codes", "Rice(65536): concrete parameter, text built from the Display template") => parse_concrete::<_, {RICE}, 65536>;
+    #[kani::stub(alloc::fmt::format, stub_format)]
+    #[kani::stub(std::string::ToString::to_string, stub_to_string)]
+    #[kani::stub(std::backtrace::Backtrace::capture, stub_backtrace_capture)]
+    #[kani::unwind(50)]
+    c16_parsek_rice_4294967296 (quick, "FromStr for Codes", "Rice(4294967296): concrete parameter, text built from the Display template") => parse_concrete::<_, {RICE}, 4294967296>;
+    #[kani::stub(alloc::fmt::format, stub_format)]
+    #[kani::stub(std::string::ToString::to_string, stub_to_string)]
+    #[kani::stub(std::backtrace::Backtrace::capture, stub_backtrace_capture)]
+    #[kani::unwind(50)]
+    c16_parsek_rice_18446744073709551615 (thorough, "FromStr for Codes", "Rice(18446744073709551615): concrete parameter, text built from the Display template") => parse_concrete::<_, {RICE}, 18446744073709551615>;
 }
